@@ -70,8 +70,32 @@ def gen_req(rng, max_funcs=3, max_size=3, small=False):
                                storages=("file_array",))
         if mapgen.request_size(r) > 30:
             continue
+        if observation_weight(r) > 15000:   # nested structural strings blow up: keep the Coq literals small
+            continue
         r["storage"] = rng.choice(STORAGES)
         return r
+
+
+def observation_weight(req):
+    """Characters of the call log plus of all outputs of one uninterrupted run (generator-side size guard only)."""
+    import numpy as np
+
+    log = mapsym.CallLog()
+    with _quiet(), mapsym.TempRun() as d:
+        try:
+            p = mapsym.build_pipeline(req, log)
+            r = p.map(mapsym.map_inputs(req), run_folder=d, internal_shapes=mapsym.internal_arg(req),
+                      storage="dict", parallel=False)
+        except Exception:  # noqa: BLE001
+            return 0
+        n = sum(len(x) for x in log.read())
+        for v in r.values():
+            out = v.output
+            if isinstance(out, np.ndarray):
+                n += sum(len(mapsym.canon(x)) for x in out.reshape(-1))
+            else:
+                n += len(mapsym.canon(out))
+    return n
 
 
 def root_axes(req):
